@@ -390,7 +390,8 @@ def printArgValsLoop : Nat → POpt → List Cell → Nat → Nat → PSt → Na
       let c ← deref cur
       let conv ← convertToRange opt cur (n - i)
       let input : List Cell := match conv with | some (_, block) => block | none => cur
-      let prev : Option Cell ← if i = 0 then pure none else (do let p ← deref (args.drop (i - 1)); pure (some p))
+      -- (i == 0) ? NULL : (args-1); the cell before `args` exists whenever i > 0
+      let prev : Option Cell := if i = 0 then none else (args.drop (i - 1)).head?
       let (st1, tmp) ← printArgVal (cur.length + 3) opt input prev st
       let wrt1 := wrt + tmp
       -- these compute the newlines themselves
